@@ -53,7 +53,7 @@ type Beh struct {
 	Script map[string][]int   `json:"script"`
 	Order  []string           `json:"order"`
 	Obs    map[string][]Entry `json:"obs"`
-	Policy string             `json:"policy"`
+	Policy map[string]string  `json:"policy"`
 	Config string             `json:"config"`
 	Lazy   bool               `json:"lazy"`
 	Meta   map[string]Comp    `json:"meta"`
@@ -387,8 +387,8 @@ func main() {
 	cases := map[string]*Case{}
 	var order []string
 	var stats []tlcStats
-	nops := 23 // size of the alphabet; checked against the Meta record below
-	samples := []smp{{env.Pick(250, 1000), 2, 2}, {env.Pick(40, 200), 3, 2}, {env.Pick(60, 400), 2, 3}, {env.Pick(0, 20), 3, 3}}
+	nops := 27 // size of the alphabet; checked against the Meta record below
+	samples := []smp{{env.Pick(180, 1000), 2, 2}, {env.Pick(30, 200), 3, 2}, {env.Pick(45, 400), 2, 3}, {env.Pick(0, 20), 3, 3}}
 	mcs := map[string]string{"MCS.tla": sampleModule(rng, samples, nops)}
 	stats = append(stats, runIdeal(env, rep, cases, &order, map[bool]string{false: "ideal.cfg", true: "ideal_thorough.cfg"}[env.Thorough()], mcs, "MCS"))
 	if env.Thorough() {
@@ -414,6 +414,11 @@ func main() {
 	// 2. gated replay against the ideal model
 	sort.Strings(order)
 	initRuntime(env.Scratch)
+	stdTypes = liveStdTypes(env.Repo)
+	if len(stdTypes) == 0 {
+		common.Inconclusive("property=C08 no type exported by a Go-implemented module was found in the live interpreter")
+	}
+	rep.Extra["types_of_go_modules_found_live"] = stdTypes
 	leaky := replayAll(env, rep, cases, order)
 	fmt.Printf("phase replay done at %.1fs\n", time.Since(env.Start).Seconds())
 
@@ -567,7 +572,7 @@ func replayAll(env *common.Env, rep *common.Report, cases map[string]*Case, orde
 // soloInFreshProcess runs one single-operation case in a new process and reports whether it behaves as specified there.
 func soloInFreshProcess(env *common.Env, c *Case) bool {
 	jf := filepath.Join(env.Scratch, "solo.json")
-	b, _ := json.Marshal(&stressJob{Cases: []*Case{c}, OpList: opList, Meta: meta, Scratch: env.Scratch})
+	b, _ := json.Marshal(&stressJob{Cases: []*Case{c}, OpList: opList, Meta: meta, StdTypes: stdTypes, Scratch: env.Scratch})
 	os.WriteFile(jf, b, 0o644)
 	cmd := exec.Command(os.Args[0])
 	cmd.Dir = env.Scratch
@@ -581,6 +586,7 @@ func soloInFreshProcess(env *common.Env, c *Case) bool {
 type stressJob struct {
 	Cases     []*Case         `json:"cases"`
 	OpList    []OpT           `json:"oplist"`
+	StdTypes  []string        `json:"std_types"`
 	Meta      map[string]Comp `json:"meta"`
 	Rounds    int             `json:"rounds"`
 	Parallel  int             `json:"parallel"`
@@ -713,7 +719,7 @@ func raceStage(env *common.Env, rep *common.Report, rng *rand.Rand, cases map[st
 	}
 	total := 0
 	// clean workload: everything that did not leak in the replay, plus concurrent Compile and a shared code object
-	job := &stressJob{Cases: clean, OpList: opList, Meta: meta, Rounds: env.Pick(1, 2), Parallel: 4, Compilers: 16, SharedN: env.Pick(8, 16),
+	job := &stressJob{Cases: clean, OpList: opList, Meta: meta, StdTypes: stdTypes, Rounds: env.Pick(1, 2), Parallel: 4, Compilers: 16, SharedN: env.Pick(8, 16),
 		Corpus: corpus(env, rng, env.Pick(24, 120)), Scratch: env.Scratch, Seed: env.Seed, CheckObs: true}
 	job.BudgetS = env.Pick(25, 150)
 	res, stderr, err := runStress(env, "clean", job, time.Duration(job.BudgetS+90)*time.Second)
@@ -764,7 +770,7 @@ func raceStage(env *common.Env, rep *common.Report, rng *rand.Rand, cases map[st
 			continue
 		}
 		name := fmt.Sprintf("leaky%d", i)
-		job := &stressJob{Cases: cs, OpList: opList, Meta: meta, Rounds: env.Pick(3, 6), Parallel: 4, Scratch: env.Scratch, Seed: env.Seed, BudgetS: env.Pick(8, 25)}
+		job := &stressJob{Cases: cs, OpList: opList, Meta: meta, StdTypes: stdTypes, Rounds: env.Pick(3, 6), Parallel: 4, Scratch: env.Scratch, Seed: env.Seed, BudgetS: env.Pick(8, 25)}
 		res, stderr, err := runStress(env, name, job, time.Duration(job.BudgetS+60)*time.Second)
 		key := "C08|" + leaky[comp] + "|" + comp + " shared|data race"
 		info := map[string]interface{}{"assignments": len(cs)}
